@@ -30,7 +30,7 @@
    Definitions only. *)
 From Coq Require Import List ZArith Bool Arith String.
 From IB Require Import Util.J Engine.Val Engine.Ops Engine.AMap Engine.Nodes Engine.Exec
-     Engine.Planner Engine.Lang Engine.Decode Engine.Canon Combiners.Lawful.
+     Engine.Planner Engine.Lang Engine.Decode Engine.Canon Combiners.Lawful Engine.Auto.
 Import ListNotations.
 Local Open Scope nat_scope.
 
@@ -463,7 +463,8 @@ Inductive eopt :=
 | EOFused (before after n : nat) | EOReordered (n : nat) (by_cost : bool) | EOLifted (rb : bool)
 | EODropped (n : nat) | EOParts (len : option nat) (p : nat).
 Record eexplain := { ee_steps : list estep; ee_barriers : nat; ee_total : nat; ee_stateless : nat;
-                     ee_source : option nat; ee_suggested : option nat; ee_opts : list eopt }.
+                     ee_source : option nat; ee_suggested : option nat; ee_opts : list eopt;
+                     ee_cpus : option nat }.
 
 Definition dec_onat (j : J) : option (option nat) :=
   match j with JN => Some None | _ => option_map Some (dec_nat j) end.
@@ -513,15 +514,23 @@ Definition dec_eopt (j : J) : option eopt :=
       else None
   | _ => None
   end.
+Definition dec_explain_with (cpus : option nat) (steps : list J) (b t s src sug : J) (opts : list J)
+  : option eexplain :=
+  match omap dec_estep steps, dec_nat b, dec_nat t, dec_nat s, dec_onat src, dec_onat sug,
+        omap dec_eopt opts with
+  | Some st, Some b', Some t', Some s', Some src', Some sug', Some o' =>
+      Some {| ee_steps := st; ee_barriers := b'; ee_total := t'; ee_stateless := s';
+              ee_source := src'; ee_suggested := sug'; ee_opts := o'; ee_cpus := cpus |}
+  | _, _, _, _, _, _, _ => None
+  end.
+(* the optional last element is num_cpus::get() on the machine that produced the explanation *)
 Definition dec_explain (j : J) : option eexplain :=
   match j with
-  | JL [JL steps; JL [b; t; s; src]; sug; JL opts] =>
-      match omap dec_estep steps, dec_nat b, dec_nat t, dec_nat s, dec_onat src, dec_onat sug,
-            omap dec_eopt opts with
-      | Some st, Some b', Some t', Some s', Some src', Some sug', Some o' =>
-          Some {| ee_steps := st; ee_barriers := b'; ee_total := t'; ee_stateless := s';
-                  ee_source := src'; ee_suggested := sug'; ee_opts := o' |}
-      | _, _, _, _, _, _, _ => None
+  | JL [JL steps; JL [b; t; s; src]; sug; JL opts] => dec_explain_with None steps b t s src sug opts
+  | JL [JL steps; JL [b; t; s; src]; sug; JL opts; c] =>
+      match dec_nat c with
+      | Some n => dec_explain_with (Some n) steps b t s src sug opts
+      | None => None
       end
   | _ => None
   end.
@@ -574,15 +583,15 @@ Definition summary_source_consistent (e : eexplain) : bool :=
   | Some n :: _ => onat_eqb (ee_source e) n
   | None :: _ => true
   end.
-Fixpoint sizes_ok (model : list nat) (stated : list (option (option nat))) : bool :=
+Fixpoint sizes_ok (model : list (option nat)) (stated : list (option (option nat))) : bool :=
   match model, stated with
   | [], [] => true
   | m :: model', s :: stated' =>
-      match s with Some n => onat_eqb n (Some m) | None => true end && sizes_ok model' stated'
+      match s with Some n => onat_eqb n m | None => true end && sizes_ok model' stated'
   | _, _ => false
   end.
-Definition model_src_sizes (c : list node) : list nat :=
-  flat_map (fun n => match n with NB (BSource s) => [s_len s] | _ => [] end) c.
+Definition model_src_sizes (c : list node) : list (option nat) :=
+  flat_map (fun n => match n with NB (BSource s) => [s_hint s] | _ => [] end) c.
 
 (* the optimisation decisions build_plan records, from the eight descriptors of `passes` *)
 Definition expl_opts (safe : nat -> bool) (ds : list (list ndesc)) : list eopt :=
@@ -616,24 +625,36 @@ Fixpoint eopts_eqb (a b : list eopt) : bool :=
   | _, _ => false
   end.
 (* build_plan: the pass decisions, then PartitionSuggestion iff a partition count is suggested;
-   the count itself depends on the machine (num_cpus): only >= 2 (hw.max(2)) is required.
-   `first_len` = Some l when the length of the raw chain's first-node Source is known to the caller *)
+   the count depends on the machine: it must equal Auto.suggest_partitions of the reported length
+   hint and the core count the harness reports (num_cpus::get()), and be >= 2.
+   `first_len` = Some h when the caller knows the length hint h (None = "unknown") of the raw
+   chain's first-node Source *)
 Definition expl_opts_ok (safe : nat -> bool) (ds : list (list ndesc)) (first_is_src : bool)
-           (first_len : option nat) (e : eexplain) : bool :=
+           (first_len : option (option nat)) (e : eexplain) : bool :=
   let expected := expl_opts safe ds in
   match ee_suggested e with
-  | None => negb first_is_src && eopts_eqb expected (ee_opts e)
+  | None =>
+      (* nothing suggested: the chain does not start with a Source, or that Source cannot tell its
+         length (VecOps::len = None) *)
+      (negb first_is_src || match first_len with Some None => true | _ => false end)
+      && eopts_eqb expected (ee_opts e)
   | Some p =>
       first_is_src && (2 <=? p)
       && match rev (ee_opts e) with
-         | EOParts l p' :: r =>
+         | EOParts (Some n) p' :: r =>
              Nat.eqb p p' && eopts_eqb expected (rev r)
-             && match first_len, l with
-                | Some m, Some n => Nat.eqb m n
-                | Some _, None => false
-                | None, _ => true
+             && match first_len with
+                | Some (Some m) => Nat.eqb m n
+                | Some None => false
+                | None => true
                 end
-         | _ => false
+             (* the count is exactly planner.rs's formula of the reported length hint and the
+                machine's core count *)
+             && match ee_cpus e with
+                | Some c => onat_eqb (suggest_partitions (Some n) c) (Some p)
+                | None => true
+                end
+         | _ => false       (* without a length hint there is no suggestion *)
          end
   end.
 (* a bare chain handed to Plan::explain (synthetic cases): nothing suggested, nothing recorded *)
@@ -669,7 +690,7 @@ Definition explain_agrees (raw : list node) (planned : bool) (e : eexplain) : bo
   && sizes_ok (model_src_sizes mplan) (stated_sizes (ee_steps e))
   && (if planned
       then expl_opts_ok (m_safe raw) mds (first_is_source (nth 0 mds []))
-                        (match raw with NB (BSource s) :: _ => Some (s_len s) | _ => None end) e
+                        (match raw with NB (BSource s) :: _ => Some (s_hint s) | _ => None end) e
       else expl_bare_ok e).
 (* prop: explain describes the chain that ran (observed descriptor `plan_d`, real operators' hints)
    and the decisions match the passes that changed the observed chain *)
@@ -678,7 +699,7 @@ Definition explain_prop (ds : list (list ndesc)) (ois : list opinfo) (plan_d : l
   expl_chain_ok (o_cost ois) plan_d e
   && (if planned
       then expl_opts_ok (o_safe ois) ds (first_is_source (nth 0 ds []))
-                        (match stated_sizes (ee_steps e) with Some n :: _ => n | _ => None end) e
+                        (match stated_sizes (ee_steps e) with Some n :: _ => Some n | _ => None end) e
       else expl_bare_ok e).
 
 Definition dec_obss (j : J) : option (list obs) :=
